@@ -231,6 +231,41 @@ pub fn spec_validate_message(env: &Env, contract: &Address, caller: &Address, so
         }
     }
 }
+pub fn spec_is_message_approved(_env: &Env, contract: &Address, source_chain: &String, message_id: &String, source_address: &String, contract_address: &Address, payload_hash: &BytesN<32>) -> bool {
+    unsafe {
+        let m = match &G_FOR {
+            Some((c, ch, id, sa, ph)) => *c == *contract_address && *ch == *source_chain && *id == *message_id && *sa == *source_address && *ph == payload_hash.0,
+            None => false,
+        };
+        *contract == gateway_addr() && G_STATUS == 1 && m
+    }
+}
+pub fn spec_is_message_executed(_env: &Env, contract: &Address, source_chain: &String, message_id: &String) -> bool {
+    unsafe {
+        match &G_FOR {
+            Some((_, ch, id, _, _)) => *contract == gateway_addr() && G_STATUS == 2 && *ch == *source_chain && *id == *message_id,
+            None => false,
+        }
+    }
+}
+/// any other value-moving token entry point: recorded as an unexpected call (kind 9)
+pub fn spec_transfer_from(env: &Env, contract: &Address, spender: &Address, from: &Address, to: &Address, amount: &i128) {
+    if *spender != env.current_contract_address() {
+        spender.require_auth();
+    }
+    rec_token(9, contract, from.0, to.0, *amount)
+}
+pub fn spec_burn_from(env: &Env, contract: &Address, spender: &Address, from: &Address, amount: &i128) {
+    if *spender != env.current_contract_address() {
+        spender.require_auth();
+    }
+    rec_token(9, contract, from.0, 0, *amount)
+}
+pub fn spec_balance(_env: &Env, _contract: &Address, _id: &Address) -> i128 {
+    let b: i128 = kani::any();
+    kani::assume(b >= 0);
+    b
+}
 pub fn spec_execute_with_token(env: &Env, contract: &Address, source_chain: &String, message_id: &String, source_address: &Bytes, payload: &Bytes, token_id: &BytesN<32>, token_address: &Address, amount: &i128) {
     unsafe {
         X_CALLS += 1;
